@@ -1,6 +1,5 @@
 //! C15 — Streaming output is always a prefix of the final output and keeps up with input.
 
-use crate::gen::bytes::*;
 use crate::gen::program::*;
 use crate::iowrap::SinkCfg;
 use crate::refmodel::enc::{encode_lzma, lzma_header, lzma_header5};
